@@ -130,6 +130,23 @@ impl Probe for AccountInfo {
     }
 }
 
+/// the by-reference spelling of a plain account (its own hand-written client / decode / CPI impls)
+impl Probe for &AccountInfo {
+    type Client = Pubkey;
+    fn shape() -> Sexp {
+        single(false, false, None)
+    }
+    fn client(v: &Sexp) -> Option<Pubkey> {
+        key_client(v)
+    }
+    fn show(&self) -> Sexp {
+        show_info(self)
+    }
+    fn static_metas(out: &mut Vec<(bool, bool)>) {
+        push_meta::<Self>(out)
+    }
+}
+
 impl<T: Probe + SingleAccountSet> Probe for MaybeSigner<true, T>
 where
     Self: SingleAccountSet,
